@@ -40,6 +40,7 @@ func nFromString(ab string, n int) (string, float64) {
 
 // randomUint32 creates a random 32 bit unsigned integer
 func randomUint32() uint32 {
+	verifYield("randomUint32")
 	b := make([]byte, 4)
 	_, err := rand.Read(b)
 	if err != nil {
@@ -72,6 +73,7 @@ func entropySimple(length int, nelem int) FloatE {
 //
 // Based on Int31n from the math/rand package..
 func randomUint32n(n uint32) uint32 {
+	verifNoteDraw(n)
 	if n < 1 {
 		panic("randomUint32n called with 0")
 	}
